@@ -325,6 +325,30 @@ func runSizeSweep(ctx *core.Ctx, id string, legacy bool, tier string, what sizeW
 			fmt.Fprintf(os.Stderr, "  size cluster %s: %v\n", labels[i], time.Since(t0))
 		}
 	}
+	if what.merge {
+		// DELETION RATIOS: a patch that nulls half / four fifths / all but one of an n-member object (and
+		// changes one survivor), at the root and one level down - what is left relative to what was there
+		d := sizeDimsFor(tier)
+		var ratios int64
+		for _, n := range d.widths {
+			if n < 4 {
+				continue
+			}
+			base := widthObj(n)
+			var patches []*rj.Value
+			for _, k := range []int{n / 2, n * 4 / 5, n - 1} {
+				po := rj.NewObj()
+				for i := 0; i < k; i++ {
+					po.O = append(po.O, rj.Member{Name: base.O[i].Name, V: rj.NewNull()})
+				}
+				po.O = append(po.O, rj.Member{Name: base.O[n-1].Name, V: rj.MustParse(`"kept"`)})
+				patches = append(patches, po, rj.NewObj(rj.Member{Name: "in", V: po}))
+				ratios++
+			}
+			runMergeEdges(ctx, id, legacy, []*rj.Value{base, rj.NewObj(rj.Member{Name: "in", V: base}, rj.Member{Name: "k", V: num(1)})}, patches, mergeCfg{})
+		}
+		ctx.Count("size_deletion_ratio_patches", ratios)
+	}
 	if what.compose {
 		// the composition law on the clusters next to the powers of two only (cubic)
 		for i, c := range clusters {
